@@ -445,7 +445,7 @@ Proof.
     + destruct HM as [vs ->]. cbn -[do_call enc_query enc_params].
       destruct (do_call call_ref (PRef 0) [enc_query w]); cbn -[do_call enc_query enc_params]; try reflexivity.
       destruct (do_call call_ref (PRef kc) [enc_query w]); reflexivity.
-    + rewrite HM. reflexivity.
+    + rewrite HM. destruct (msg "call:join" _) as [[]| | | |]; reflexivity.
   - (* some placeholder is positional *)
     cbn -[compare1 do_call enc_query enc_params].
     rewrite (any_names phs Hp).
@@ -539,7 +539,7 @@ Theorem connection_cursor_src : forall (kC : nat) (flds : env),
   bind (do_call call_ref (PRef kC) [PSelf]) (fun c => Ok (flds, c)).
 Proof.
   intros kC flds Hk. cbn in Hk. injection Hk as <-. unfold connection_cursor, call_method. cbn -[do_call].
-  destruct (do_call call_ref (PRef 3) [PSelf]); reflexivity.
+  destruct (do_call call_ref (PRef _) [PSelf]); reflexivity.
 Qed.
 
 Theorem connection_parse_src : forall (kP : nat) (flds : env) (q : pv),
@@ -548,7 +548,7 @@ Theorem connection_parse_src : forall (kP : nat) (flds : env) (q : pv),
   bind (do_call call_ref (PRef kP) [q]) (fun r => Ok (flds, r)).
 Proof.
   intros kP flds q Hk. cbn in Hk. injection Hk as <-. unfold connection_parse, call_method. cbn -[do_call].
-  destruct (do_call call_ref (PRef 4) [q]); reflexivity.
+  destruct (do_call call_ref (PRef _) [q]); reflexivity.
 Qed.
 
 Theorem connection_compile_src : forall (kF : nat) (flds : env) (q : pv),
@@ -557,7 +557,7 @@ Theorem connection_compile_src : forall (kF : nat) (flds : env) (q : pv),
   bind (do_call call_ref (PRef kF) [PSelf; q]) (fun r => Ok (flds, r)).
 Proof.
   intros kF flds q Hk. cbn in Hk. injection Hk as <-. unfold connection_compile, call_method. cbn -[do_call].
-  destruct (do_call call_ref (PRef 5) [PSelf; q]); reflexivity.
+  destruct (do_call call_ref (PRef _) [PSelf; q]); reflexivity.
 Qed.
 
 Theorem compile_fn_src : forall (kK : nat) (ctx st p : pv),
@@ -569,6 +569,23 @@ Proof.
   cbn -[do_call opaque_method].
   destruct (do_call call_ref (PRef 2) [ctx]); cbn -[do_call opaque_method]; try reflexivity.
   destruct (opaque_method msg "call:compile" [a; st; p]); reflexivity.
+Qed.
+
+
+(* ---------------------------------------------------------------- Connection.__init__: the per-connection state
+   Every attribute a new Connection starts with is BUILT inside __init__ - a dict display holding a NullTable made
+   by a constructor call of its own, an empty dict display, an empty list display - starting from an object without
+   attributes: no class-level or module-level container is stored (such a name would be an opaque reference in the
+   generated term, and this statement would no longer check).  Two connections therefore share no mutable
+   object through these attributes. *)
+Theorem connection_init_src : forall (kN : nat) (dsn : pv),
+  ref_of refs "beanquery.tables.NullTable" = Some kN ->
+  call_method call_ref prim connection_init_state [] [dsn] =
+  bind (do_call call_ref (PRef kN) []) (fun nt =>
+  Ok ([("tables", pdict [(PV (VStr []), nt)]); ("options", pdict []); ("errors", PList [])], PNone)).
+Proof.
+  intros kN dsn Hk. cbn in Hk. injection Hk as <-. unfold connection_init_state, call_method. cbn -[do_call].
+  destruct (do_call call_ref (PRef _) []); reflexivity.
 Qed.
 
 End Tie.
